@@ -20,8 +20,9 @@ META = {
              'is a yield point) runs every single-preemption and sampled double-preemption schedule of 2 (thorough: 3) threads on '
              'the real index and compares with sequential orders of the multimap. Not proved: key-set/postings consistency at '
              'quiescence in the concurrent model (explored), the concurrent array calls (explored at pair granularity), '
-             'insert_array/remove_array/batch_update refinement and the flush/load round trip (compared on every run, incl. '
-             'dirty-tracking probes). Hash-map iteration order is abstracted to list order, so bucket placement is compared only '
+             'insert_array/remove_array/batch_update refinement and the clean-bucket store invariant that closes the flush/load round trip '
+             '(the load side is proved: C10_load_reads_manifest_files; the round trip is compared on every run, incl. dirty-tracking and '
+             'overlapped-flush probes; a flush overlapped by a mutation is not modelled, only searched on the implementation). Hash-map iteration order is abstracted to list order, so bucket placement is compared only '
              'on histories without multi-value batch operations, compaction or reload. CBOR sizes are exact for unsigned keys/ids.'),
     'technique': 'Coq proof (invariants, refinement, structural induction on query trees, generic commit-point atomicity, '
                  'linearization points of a small-step concurrent model) + differential model/impl run + certified monitor on '
